@@ -40,7 +40,7 @@ func runCreateCloseRace(c *eng.Ctx, idx int, variant int) bool {
 	rounds := c.Pick(4000, 60000)
 	rt.SetNoise(80) // godi's internal yield points perturb the schedule
 	defer rt.SetNoise(0)
-	creators := 2 + variant%3   // goroutines creating children of the parent
+	creators := 2 + variant%3       // goroutines creating children of the parent
 	contenders := 4 + 4*(variant%2) // goroutines keeping the provider's scope bookkeeping busy
 	childCtx := []string{"nil", "bg", "value"}[variant%3]
 	coll := godi.NewCollection()
